@@ -1,12 +1,25 @@
 (** Correspondence evaluator for C10: observations of benchunit.CommonScale,
     Scale, Scaler.Format, NoOpScaler, ClassOf against Model/Scale.v, and the
-    specification predicates of Model/ScaleSpec.v on the observed outputs. *)
-From Perf Require Import Base.Bytes Base.Sx Base.B64 Base.SxF Base.FmtFixed Model.Scale Model.ScaleSpec.
+    specification predicates of Model/ScaleSpec.v on the observed outputs.
+    Kind 4 (and kind 6 of C16, which re-uses [rtab_corr] / [rtab_prop]): real
+    benchtab tables - the centres Table.ToText printed, read from the text
+    (Model/RowText.v), against Model/RowScale.v and the shared-scale clause. *)
+From Perf Require Import Base.Bytes Base.Sx Base.B64 Base.SxF Base.FmtFixed Model.Scale Model.ScaleSpec Model.RowScale.
+From Perf Require Model.RowText.
 Local Open Scope Z_scope.
 
 Definition obs_scaler := option (Z * b64 * bytes).     (* None = panic *)
 
+(** one real benchtab.Table (kind 4; kind 6 of C16): unit, the text ToText
+    wrote, per row whether the harness saw RowScaler return the scale of the
+    least non-zero |centre| alone, and the centres of the row's cells *)
+Definition obs_row := (bool * list (option b64))%type.
+Definition obs_rtab := (bytes * bytes * list obs_row)%type.
+Definition as_rtabs : sx -> option (list obs_rtab) :=
+  as_list (as_triple as_b as_b (as_list (as_pair as_bool (as_list (as_opt as_f64))))).
+
 Inductive case :=
+  | KRows (tabs : list obs_rtab)
   | KTables (cls : class) (rows : list (Z * obs_scaler * obs_scaler))
   | KCommon (cls : class) (vals : list b64) (s : obs_scaler) (strs : list bytes)
             (scale_str : option bytes) (same_as_min : bool)
@@ -37,6 +50,7 @@ Definition decode (s : sx) : option case :=
       do orc <- as_list (as_pair as_f64 as_b) orc;
       Some (KFormat p f pre v orc out)
   | SL [SZ 3; SB u; SZ c] => Some (KClass u c)
+  | SL [SZ 4; tabs] => do tabs <- as_rtabs tabs; Some (KRows tabs)
   | _ => None
   end.
 
@@ -77,9 +91,48 @@ Definition direct_sigfigs (cls : class) : list b64 :=
 Definition expected_changes (cls : class) : nat :=
   match cls with Decimal => 30 | Binary => 21 | BadClass => 0 end.
 
+(** ** rows of real tables: the centres the text prints, paired with the cells *)
+Fixpoint pair_cells (cs : list (option b64)) (ss : list (option bytes)) : option (list b64 * list bytes) :=
+  match cs, ss with
+  | [], [] => Some ([], [])
+  | None :: cs', None :: ss' => pair_cells cs' ss'
+  | Some v :: cs', Some s :: ss' =>
+      match pair_cells cs' ss' with Some (vs, strs) => Some (v :: vs, s :: strs) | None => None end
+  | _, _ => None
+  end.
+
+Fixpoint zip_rows {A B} (a : list A) (b : list B) : list (A * B) :=
+  match a, b with x :: a', y :: b' => (x, y) :: zip_rows a' b' | _, _ => [] end.
+
+(** [f same cells vals strs] on every row of the table; the text must show
+    exactly the rows' present cells (one centre per present cell, none for a
+    missing one, as many column groups as the row has columns) *)
+Definition rtab_eval (f : bool -> list (option b64) -> list b64 -> list bytes -> bool) (t : obs_rtab) : bool :=
+  let '(_, text, rows) := t in
+  match RowText.row_centres text (length rows) with
+  | Some cs =>
+      Nat.eqb (length cs) (length rows)
+      && forallb (fun '((same, cells), ss) =>
+           match pair_cells cells ss with
+           | Some (vs, strs) => f same cells vs strs
+           | None => false
+           end) (zip_rows rows cs)
+  | None => false
+  end.
+
+(** model: RowScaler + Format *)
+Definition rtab_corr (t : obs_rtab) : bool :=
+  let cls := class_of (fst (fst t)) in
+  rtab_eval (fun _ cells vals strs =>
+    match row_scaler cells cls with
+    | Some m => blist_eqb (map (format (fun _ => oracle_miss) m) vals) strs
+    | None => false
+    end) t.
+
 (** ** corr_ok *)
 Definition corr_ok (c : case) : bool :=
   match c with
+  | KRows tabs => forallb rtab_corr tabs
   | KTables cls rows =>
       forallb (fun '(b, at_b, below) =>
                  oscaler_eqb (common_scale [b64_of_bits b] cls) at_b
@@ -192,6 +245,34 @@ Definition prop_common (cls : class) (vals : list b64) (s : obs_scaler) (strs : 
          end
   end.
 
+(** a row of a real table, judged by the shared-scale clause on what the text
+    shows: precision and prefix are read from the first centre that is a
+    number; [prop_common] then demands that every centre of the row carries that
+    precision and prefix (one scale per row), that the prefix belongs to the
+    unit's class, that the scale is the one of the least non-zero magnitude
+    ([same] and the digit counts: four resp. three significant digits on the
+    least magnitude, at least as many on the others) and that every printed
+    centre is within half a unit of its last digit of the cell's value *)
+Definition first_fixed (strs : list bytes) : option parsed_fixed :=
+  match flat_map (fun s => match parse_fixed s with Some p => [p] | None => [] end) strs with
+  | p :: _ => Some p
+  | [] => None
+  end.
+Definition row_prop (cls : class) (same : bool) (vals : list b64) (strs : list bytes) : bool :=
+  match vals with
+  | [] => true
+  | _ =>
+      match first_fixed strs with
+      | Some pf =>
+          prop_common cls vals (Some (Z.of_nat (pf_prec pf), b64_zero, pf_rest pf)) strs
+                      (match strs with [s] => Some s | _ => None end) same
+      | None => forallb (fun v => negb (b64_is_finite v)) vals    (* only NaN / infinities to print *)
+      end
+  end.
+Definition rtab_prop (t : obs_rtab) : bool :=
+  let cls := spec_class (fst (fst t)) in
+  rtab_eval (fun same _ vals strs => row_prop cls same vals strs) t.
+
 (** Format with an arbitrary Scaler: the text is the half-even decimal of the
     binary64 quotient (exactly: no slack), resp. the shortest decimal that
     reads back to it *)
@@ -219,6 +300,7 @@ Definition prop_format (p : Z) (f : b64) (pre : bytes) (v : b64) (out : bytes) :
 
 Definition prop_ok (c : case) : bool :=
   match c with
+  | KRows tabs => forallb rtab_prop tabs
   | KTables cls rows =>
       (* prefix boundaries coincide with how the mantissa rounds: on each side
          of every change point the value is printed with four digits *)
